@@ -59,6 +59,7 @@ def check(run):
     # traces: random adversarial envelopes + the library's own signers + shipped fixtures
     traces_verify.random_traces(run, n=1500 if quick else 30000, owner=owns)
     traces_verify.library_signed_traces(run, n=300 if quick else 5000, owner=owns)
+    traces_verify.big_envelopes(run, n=12 if quick else 200, owner=owns)
     traces_verify.inplace_histories(run, n=300 if quick else 5000, owner=owns)
     traces_verify.fixture_traces(run, owner=owns)
 
